@@ -36,8 +36,8 @@ CHECKS = {
          "invariant hook at quiescent points + shadow handle table"),
  "C05": ("DESIGN.md §5 C05, Appendix A",
          "Held on every explored call: the real forest is compared node by node (structure, values, liveness, live-slot count, string values) with an independent ordered-forest model after every precondition-satisfying call, exhaustively over all (operation, node, node) triples of ~2500 small start states in both consolidation modes and over >=6*10^4 random histories; exploration, not proof.",
-         "The model transcribes documentation + property statement (Appendix A); survivor choice of an inserted-first text merge is left open as in the documentation.",
-         "reference-model monitor (ordered forest) after every call"),
+         "The model transcribes documentation + property statement (Appendix A); survivor choice of an inserted-first text merge is left open as in the documentation. On forests that still hold adjacent text nodes from a consolidation-off phase only the two seams a call creates are judged (take-out and destination-seam probes, ~8 300 calls per run), not the whole forest.",
+         "reference-model monitor (ordered forest) after every call; seam assertions on mixed-consolidation states"),
  "C06": ("DESIGN.md §5 C06, Appendix A",
          "Held on every explored call: every call with arbitrary live arguments runs under catch_unwind; around every refused call a snapshot of every live node's value and relations and every root's serialisation is compared; exhaustive over the small-state catalogue (all node pairs incl. illegal ones) plus >=6*10^4 random histories; exploration, not proof.",
          "Handle-less unreachable nodes left by a refused create-and-append call are not observable and not judged; documented panics of the element-only accessors are allowed.",
